@@ -34,6 +34,8 @@ type World struct {
 	cg       *callgraph.Graph
 	locks    *LockInfo
 	mayLocks *LockInfo
+	thorough bool // thorough tier: who-may-call inventories are cross-checked against the VTA call graph
+	vtaExtra int
 }
 
 func loadWorld(repo string) (*World, error) {
